@@ -17,7 +17,7 @@ def _violation_worker(cases):
     out = {}
     n = 0
     for c in cases:
-        for order in ("same", "reversed"):
+        for order in ("same", "reversed", "subclassed"):
             n += 1
             a = c["new"]
             if order == "reversed":
@@ -27,7 +27,7 @@ def _violation_worker(cases):
                 label = "covariance(%s<=%s)" % (schemagamma.tsdl(c["ot"]), schemagamma.tsdl(c["it"]))
             wit = {"labels": c["labels"], "order": order, "schema": a}
             try:
-                schema = schemagamma.realize(a)
+                schema = schemagamma.realize(a, subclassed=(order == "subclassed"))
             except Exception as e:
                 if c["valid"]:
                     out.setdefault("schema/constructor-rejects-valid/%s" % label, ["Schema() rejects a valid schema", dict(wit, error=repr(e))])
@@ -90,9 +90,14 @@ def _memo_worker(hists):
         seq = [(s["op"], s["f"], s["c"]) for s in h]
         for i, s in enumerate(h):
             n += 1
-            if s["op"] == "register":
+            if s["op"] in ("register", "type-default", "schema-default"):
                 try:
-                    schema.register_resolver("Query", s["f"], res[s["c"]], allow_override=True)
+                    if s["op"] == "register":
+                        schema.register_resolver("Query", s["f"], res[s["c"]], allow_override=True)
+                    elif s["op"] == "type-default":
+                        schema.register_default_resolver("Query", res[s["c"]], allow_override=True)
+                    else:
+                        schema.default_resolver = res[s["c"]]
                 except Exception as e:
                     out.setdefault("memo/register-raises/%s" % type(e).__name__, ["register_resolver raises", {"sequence": seq, "step": i, "error": repr(e)}])
                     break
@@ -106,9 +111,9 @@ def _memo_worker(hists):
                     out.setdefault("memo/validate-raises/%s" % type(e).__name__, ["validate() raises an unrelated exception", {"sequence": seq, "step": i, "error": repr(e)}])
                     break
                 if raised != s["raises"]:
-                    prev = [x for x in seq[:i] if x[0] == "register"]
+                    prev = [x for x in seq[:i] if x[0] != "validate"]
                     kind = "stale-valid" if s["raises"] else "stale-invalid"
-                    out.setdefault("memo/%s/after=%s" % (kind, "%s:%s" % (prev[-1][1], prev[-1][2]) if prev else "-"),
+                    out.setdefault("memo/%s/after=%s" % (kind, "%s:%s" % (prev[-1][1] or prev[-1][0], prev[-1][2]) if prev else "-"),
                                    ["validate() verdict differs from the verdict of the current state", {"sequence": seq, "step": i, "expected_raise": s["raises"]}])
                     break
     return out, n
